@@ -40,11 +40,18 @@ abbrev Pairs := List (Nat × List String)
 def wfMap (vars : List (String × V)) (pairs : Pairs) : Prop :=
   (∀ x ∈ pairs, nullAt x.2 vars = true) ∧ (pairs.map (·.2)).Nodup
 
+instance (vars : List (String × V)) (pairs : Pairs) : Decidable (wfMap vars pairs) := by
+  unfold wfMap; infer_instance
+
 /-- each file is used at one position -/
 def filesDistinct (pairs : Pairs) : Prop := (pairs.map (·.1)).Nodup
 
+instance (pairs : Pairs) : Decidable (filesDistinct pairs) := by unfold filesDistinct; infer_instance
+
 /-- the tree came from JSON: no upload in it yet -/
 def noUploads (vars : List (String × V)) : Prop := upsKVs vars = []
+
+instance (vars : List (String × V)) : Decidable (noUploads vars) := by unfold noUploads; infer_instance
 
 /-- `injectFile` for all pairs on one request's variables, positions already split -/
 def injectPairs (F : Facts) : Pairs → List (String × V) → Res (List (String × V))
@@ -58,9 +65,11 @@ def injectPairs (F : Facts) : Pairs → List (String × V) → Res (List (String
 /-- the downstream service of request `req` received file `u` at position `variables.<path>`
 with its bytes: some multipart call for `req` has that part, encoded from an undrained reader,
 and the variables it carries are `vars` -/
-def delivered (F : Facts) (calls : List Call) (req : Nat) (vars : List (String × V)) (x : Nat × List String) : Prop :=
-  ∃ parts, Call.multipart req (some vars) parts ∈ calls ∧
-    (⟨x.1, F.positionPrefix :: x.2, true⟩ : Part) ∈ parts
+def delivered (F : Facts) (calls : List Call) (req : Nat) (vars : List (String × V)) (x : Nat × List String) : Bool :=
+  calls.any (fun c => match c with
+    | .multipart r v parts =>
+      decide (r = req) && decide (v = some vars) && parts.contains (⟨x.1, F.positionPrefix :: x.2, true⟩ : Part)
+    | .json _ => false)
 
 /-- the per-step variables `executor.getVariables` builds: the named top-level entries -/
 def stepVars (names : List String) (m : List (String × V)) : List (String × V) :=
